@@ -6,7 +6,7 @@ package beacon
 // harness can tell "still working" from "settled". No behaviour of its own.
 
 // VerifBacklog returns the number of items queued between the goroutines of h (partials waiting for the
-// aggregator, stored-beacon notifications, the catch-up notification, sync requests and sync progress marks).
+// aggregator, stored-beacon notifications, the catch-up notification, sync requests, sync progress marks and jobs queued for the callback workers).
 func VerifBacklog(h *Handler) int {
 	if h == nil || h.chain == nil {
 		return 0
@@ -15,6 +15,14 @@ func VerifBacklog(h *Handler) int {
 	n := len(c.newPartials) + len(c.beaconStoredAgg) + len(c.catchupBeacons)
 	if c.syncm != nil {
 		n += len(c.syncm.newReq) + len(c.syncm.newSyncedBeacon)
+	}
+	// jobs waiting for a callback worker (the "transition" callback of TransitionNewGroup runs there)
+	if cbs, ok := c.CallbackStore.(*callbackStore); ok {
+		cbs.RLock()
+		for _, j := range cbs.newJob {
+			n += len(j)
+		}
+		cbs.RUnlock()
 	}
 	return n
 }
